@@ -9,7 +9,9 @@ CONSTANTS
   Targets = {0}
   Corruptions = Corruptions
   NT = 1
-  FollowRetries = FALSE
+  FollowRetries = TRUE
+  FollowAppend = TRUE
+  ResyncChecksRound = TRUE
   MaxAgg = 0
   QCap = 3
   Linger = TRUE
